@@ -202,6 +202,18 @@ ALPHA = [["enq", 0, 0], ["enq", 1, 1], ["enq", 2, 2], ["enq", 3, 0], ["mut", 0],
          ["toggle"], ["enqfrag", 0], ["enq", 4, 0]]
 
 
+def _enum_types():
+    """every message type that is not a fragment type, into both queue classes, directly and through a node: stored and given
+    back unchanged (the fragment test must select exactly 148, 149 and 150)"""
+    for t in range(256):
+        if t in (148, 149, 150):
+            continue
+        for start in (True, False):
+            for via in (False, True):
+                yield {"start_frag": start, "via_node": via, "frames": [[0o1, 0o0, 7, t, t ^ 0x5A, "a1b2"], [0o2, 0o0, 9, t, 1, ""]],
+                       "ops": [["enq", 0, 0], ["enq", 1, 1], ["deq"], ["deq"]], "twin": False}
+
+
 def _enum(depth):
     def gen():
         for start in (True, False):
@@ -215,7 +227,7 @@ def _enum(depth):
 def _strategy():
     from hypothesis import strategies as st
     frame = st.tuples(st.sampled_from([0o1, 0o2, 0o15, 0o4444, 0]), st.sampled_from([0, 0o1, 0o100]),
-                      st.sampled_from([0, 1, 2, 0xFFFF]), st.sampled_from([0, 1, 65, 127, 128, 131, 193, 255, 148, 150]),
+                      st.sampled_from([0, 1, 2, 0xFFFF]), st.sampled_from([0, 1, 65, 127, 128, 131, 144, 147, 151, 152, 156, 193, 255, 148, 150]),
                       st.integers(0, 255), st.binary(max_size=30).map(bytes.hex)).map(list)
     op = st.one_of(
         st.tuples(st.just("enq"), st.integers(0, 5), st.integers(0, 2)).map(list),
@@ -260,7 +272,7 @@ def _machine():
                 self.frames.append(spec)
             return self.frames.index(spec)
 
-        @rule(frm=st.sampled_from([0o1, 0o2, 0o15, 0o4444]), fid=st.integers(0, 5), typ=st.sampled_from([0, 1, 65, 127, 128, 131, 193, 255]),
+        @rule(frm=st.sampled_from([0o1, 0o2, 0o15, 0o4444]), fid=st.integers(0, 5), typ=st.sampled_from([0, 1, 65, 127, 128, 131, 144, 147, 151, 152, 156, 193, 255]),
               rsv=st.integers(0, 255), body=st.binary(max_size=24), mode=st.integers(0, 2))
         def enqueue_fresh(self, frm, fid, typ, rsv, body, mode):
             spec = [frm, 0, fid, typ, rsv, body.hex()]
@@ -328,7 +340,7 @@ def _machine():
 
 def parts(tier):
     if tier == "quick":
-        return [Part("enum-depth4", "enum", _enum(4), exhaustive=True), Part("generated", "gen", _strategy, n=3000),
+        return [Part("every-type", "enum", _enum_types, exhaustive=True), Part("enum-depth4", "enum", _enum(4), exhaustive=True), Part("generated", "gen", _strategy, n=3000),
                 Part("state-machine", "machine", _machine, n=1600)]
-    return [Part("enum-depth6", "enum", _enum(6), exhaustive=True), Part("generated", "gen", _strategy, n=100000),
+    return [Part("every-type", "enum", _enum_types, exhaustive=True), Part("enum-depth6", "enum", _enum(6), exhaustive=True), Part("generated", "gen", _strategy, n=100000),
             Part("state-machine", "machine", _machine, n=60000)]
